@@ -91,18 +91,13 @@ func ksScenario(rt ring.Type, logN int, ch rk.Chain, bound int) engine.Scenario 
 		// 3 stale and ABOVE the input (top level) — the operation runs at the minimum of the two levels
 		outMode := c.Choose(4, "out")
 		top := c.Bool("operand")
-		if knownKS(p, kp, level, isNTT) != "" {
-			c.Skip(skipKnown)
-			return
-		}
 		runKS(c, name, p, op, kp, level, isNTT, outMode, top)
 	}}
 }
 
-// skipKnown: a finding must not mask other violations (the engine keeps at most 200 violating leaves
-// per worker): input classes with a known defect are judged, with their own signature, on the
-// representative leaves of known/* and skipped everywhere else.
-const skipKnown = "input class with a known defect, judged in known/*"
+// Input classes with a listed defect are judged everywhere, under their own signature (knownKS): the
+// engine caps stored violations per signature, so a finding cannot crowd out other violations, and a
+// repaired class is judged normally again without any change here.
 
 // knownScenario: representative leaves of the three key-switch input classes on which the unchanged
 // tree violates the property (FINDINGS.md); same bodies and oracles as ks/* and auto/*.
@@ -333,10 +328,6 @@ func autoScenario(rt ring.Type, logN int, ch rk.Chain, bound int) engine.Scenari
 		isNTT := c.Choose(2, "IsNTT") == 0
 		inPlace := c.Bool("inPlace")
 		top := c.Bool("operand")
-		if knownKS(p, kp, level, isNTT) != "" && !(galEl == 1 && autoOps[op] != "AutomorphismHoistedLazy+ModDown") {
-			c.Skip(skipKnown)
-			return
-		}
 		runAuto(c, name, p, op, galEl, kp, level, isNTT, inPlace, top)
 	}}
 }
